@@ -608,12 +608,10 @@ impl<'value, 'loc: 'value> RootScope<'value, 'loc> {
         self.scope
             .resolved_variables
             .insert(variable_name, result.clone());
-        let result = if !match_all {
-                        verif_keep_resolved(result)
-        } else {
-            result
-        };
-        Ok(result)
+        if match_all {
+            return Ok(result);
+        }
+        Ok(            verif_keep_resolved(result))
     }
 }
 // ---- canary canary:pre:resolve_variable
